@@ -80,19 +80,39 @@ type wireObs struct {
 }
 
 type wireRun struct {
-	ctx    *fw.Ctx
-	c      *wireCase
-	rng    *rand.Rand
-	inj    map[string]*injector
-	sn     sniffSet
-	cmd    *exec.Cmd
-	conf   string
-	ve0mac []byte
-	vf0mac []byte
-	ll     map[string]net.IP // link-local address of ve0 / vf0
-	xid    uint32
-	sent   map[uint32]bool // transaction ids of datagrams sent so far
-	altPort uint16         // the variant server's own port (its UDP replies come from there)
+	ctx         *fw.Ctx
+	c           *wireCase
+	rng         *rand.Rand
+	inj         map[string]*injector
+	sn          sniffSet
+	cmd         *exec.Cmd
+	conf        string
+	ve0mac      []byte
+	vf0mac      []byte
+	ll          map[string]net.IP // link-local address of ve0 / vf0
+	xid         uint32
+	sent        map[uint32]bool // transaction ids of datagrams sent so far
+	altPort     uint16          // the variant server's own port (its UDP replies come from there)
+	varServerID []byte          // the DHCPv4 server identifier the running variant server is configured with
+}
+
+// llOf returns the IPv6 link-local address of an interface of this namespace.
+func (w *wireRun) llOf(name string) net.IP {
+	if ip := w.ll[name]; ip != nil {
+		return ip
+	}
+	ifi, err := net.InterfaceByName(name)
+	if err != nil {
+		return nil
+	}
+	addrs, _ := ifi.Addrs()
+	for _, a := range addrs {
+		if ipn, ok := a.(*net.IPNet); ok && ipn.IP.IsLinkLocalUnicast() && ipn.IP.To4() == nil {
+			w.ll[name] = ipn.IP
+			return ipn.IP
+		}
+	}
+	return nil
 }
 
 // exchange injects one frame on link (ve1|vf1) and returns the DHCP frames seen on both links.
